@@ -198,6 +198,29 @@ def oracle_basic(case, rec):
         if np.isfinite(DW).all():
             plan.cmp(net, "closeness", R.closeness_connected(DW),
                  "closeness_weighted" + sfx, args=("len",))
+        # link lengths may be zero on existing links (coincident nodes of a
+        # distance attribute): such pairs are connected pairs at distance 0
+        W0 = np.array(case["W"], dtype=float)
+        zi, zj = np.nonzero(A)
+        zero = [(i, j) for i, j in zip(zi, zj)
+                if (3 * min(i, j) + 5 * max(i, j) + plan.key) % 3 == 0]
+        if zero:
+            for i, j in zero:
+                W0[i, j] = 0.0
+                if not directed:
+                    W0[j, i] = 0.0
+            ok0, _ = rec.call("set_link_attribute_zero_lengths",
+                              net.set_link_attribute, "len0", W0)
+            if ok0:
+                rec.label("zero_length_links")
+                D0 = R.path_lengths(A, W0)
+                plan.cmp(net, "path_lengths", D0,
+                         "path_lengths_zero_lengths" + sfx, args=("len0",))
+                if (np.isfinite(D0) & ~np.eye(n, dtype=bool)).any():
+                    plan.cmp(net, "average_path_length",
+                             R.average_path_length(D0),
+                             "average_path_length_zero_lengths" + sfx,
+                             args=("len0",))
     # --- betweenness
     plan.cmp(net, "betweenness", R.betweenness(A, directed),
          "betweenness" + sfx)
